@@ -9,9 +9,11 @@ Driver for C05.  One operation per line:
 `T`: the copyable instrumented element type, `M`: its move-only twin (only accepted when the
 model's program contains no copy — such an instantiation would not compile).  `<cat>` is
 `l` (T&), `c` (T const&), `r` (T&& / by value), `i` (in/out T&); `<ids>` is `1,2,3` or `-`.
-Result line: `t=<tag> r=<slots> a0=<slots> … cp=<ids> mv=<ids> ram=<ids>`; a slot is its identity,
+Result line: `t=<tag> r=<slots> a0=<slots> … cp=<ids> mv=<ids> ram=<ids> lost=<ids> mk=<n>`; a slot is its identity,
 prefixed with `~` when the object is moved-from; `cp` and `ram` sorted without duplicates,
-`mv` sorted with multiplicity (moves out of argument objects, in-place moves included).
+`mv` sorted with multiplicity (moves out of argument objects, in-place moves included), `lost` sorted with
+multiplicity (live values destroyed or overwritten during the call), `mk` = number of values the user's functions
+made from nothing (fresh values and values derived from an lvalue).
 -/
 namespace Fcppt.C05.Drv
 open Fcppt.Proto
@@ -49,12 +51,19 @@ def isCopy : Instr → Bool
   | .xfer _ _ .copy _ => true
   | _ => false
 
+/-- values made from nothing by the user's functions -/
+def made : Instr → Nat
+  | .fresh _ _ => 1
+  | .derive _ _ k _ => k
+  | _ => 0
+
 def line (o : Op) (inp : Input) : String :=
   let st := exec o inp
   if !st.oob.isEmpty then "fault:oob" else
   let args := (st.args.zipIdx.map fun (l, a) => s!"a{a}={showSlots l}")
   " ".intercalate ([s!"t={tag o inp}", s!"r={showSlots st.res}"] ++ args ++
-    [s!"cp={showIds (sort (dedup st.cp))}", s!"mv={showIds (sort (st.mv ++ st.sw))}", s!"ram={showIds (sort (dedup st.ram))}"])
+    [s!"cp={showIds (sort (dedup st.cp))}", s!"mv={showIds (sort (st.mv ++ st.sw))}", s!"ram={showIds (sort (dedup st.ram))}",
+     s!"lost={showIds (sort st.lost)}", s!"mk={((prog o inp).map made).sum}"])
 
 def handle (toks : List String) : String :=
   match toks with
